@@ -415,7 +415,9 @@ func mutate(t *rapid.T, m *mnode) string {
 		case 0:
 			m.Links[i].Child, m.Links[i].Missing = &mnode{IsRaw: true, Raw: []byte("xyz")}, false
 		case 1:
-			m.Links[i].Child, m.Links[i].Missing = &mnode{HasData: true, UFS: &ufsFields{Type: 1}, Links: []mlink{{Name: strp("inner"), Missing: true}}}, false
+			// a directory; its entry may be named like a field of the protobuf node itself
+			nm := rapid.SampledFrom([]string{"inner", "Links", "Data", "Hash", "Name", "Tsize"}).Draw(t, "dirEntryName")
+			m.Links[i].Child, m.Links[i].Missing = &mnode{HasData: true, UFS: &ufsFields{Type: 1}, Links: []mlink{{Name: strp(nm), Tsize: i64p(2), Child: &mnode{IsRaw: true, Raw: []byte("ab")}}}}, false
 		default:
 			m.Links[i].Child, m.Links[i].Missing = &mnode{HasData: true, UFS: &ufsFields{Type: 5, HasData: true, Data: []byte{1}, HashType: u64p(0x22), Fanout: u64p(8)},
 				Links: []mlink{{Name: strp("0a"), Child: &mnode{IsRaw: true, Raw: []byte("v")}}}}, false
